@@ -219,13 +219,15 @@ class AckHarness(Harness):
                 fakezmq.NET.q(EXEC).append([serde.ser_message(m)])
             grace = 801_000_000
             for s in range(params["S"]):
-                a = ch.pick(3, f"step{s}")
+                a = ch.pick(4, f"step{s}")
                 if a == 0:
                     step_ctrl()
                 elif a == 1:
                     step_exec()
-                else:
+                elif a == 2:
                     CLOCK.now += grace
+                else:
+                    CLOCK.now += 30_000_000_000  # a long silence (30 s): retransmissions may arrive very late
             # fair tail: perfect network, everybody runs, timers fire
             net.F = net.n
             for _ in range(4 * (comms.max_retries_per_message + 2)):
@@ -343,6 +345,9 @@ class Framing(Harness):
             else:
                 if err is None and got is not None:
                     raise Violation("malformed-frames-delivered-as-a-message", f"{kinds} -> {got!r}")
+                if err is None and not (already and key[0] == "syn"):
+                    # silently swallowing a malformed (possibly already acknowledged) frame loses a message without anybody noticing
+                    raise Violation("malformed-frames-silently-dropped", f"{kinds} -> None, no error")
 
 
 class RetryBudget(Harness):
